@@ -60,11 +60,37 @@ def relabel(repo, col, R):
             (s.base.op == "attr" and s.base.name == a and s.base.args[0].op == "attr" and s.base.args[0].name == "base") or
             (s.kind == "attr" and s.key.name == a and s.base.op == "attr" and s.base.name == "base") for a in attrs)
             for s in ex.stores)
+        if rewritten and not guarded:
+            _partition(col, R, fi, reg)
         col.check(guarded or rewritten, R, fi, f"set_ncomp: registry `{reg}` (stores node row labels)",
                   "asserted empty before the rows are renumbered" if guarded else "rewritten after the renumbering",
                   f"set_ncomp renumbers the node rows but neither refuses a non-empty `{reg}` nor rewrites it: its stored row "
                   f"labels point at other compartments afterwards (e.g. a group on branch 2 selects branch 1 after "
                   f"branch(0).set_ncomp(4))", node=st_nodes.node)
+
+
+def _partition(col, R, fi, reg):
+    """The rewrite splits the stored labels into before / inside / after the resized branch; the comparisons against
+    the two boundaries must partition the index line (no label is both or neither)."""
+    cmps = {}
+    for n in ast.walk(fi.node):
+        if isinstance(n, ast.Compare) and len(n.ops) == 1 and isinstance(n.comparators[0], ast.Name) and \
+                isinstance(n.ops[0], (ast.Lt, ast.LtE, ast.Gt, ast.GtE)):
+            cmps.setdefault((unparse(n.left), n.comparators[0].id), []).append(n)
+    found = 0
+    for (left, bound), lst in cmps.items():
+        ops = {type(c.ops[0]).__name__ for c in lst}
+        if len(lst) < 2 or not (ops & {"Lt", "LtE"}) or not (ops & {"Gt", "GtE"}):
+            continue
+        found += 1
+        ok = ops in ({"Lt", "GtE"}, {"LtE", "Gt"})
+        col.check(ok, R, fi, f"set_ncomp: rewrite of `{reg}`: `{left}` is split at `{bound}` without gap or overlap",
+                  f"{sorted(ops)}",
+                  f"`{left}` is compared with `{bound}` using {sorted(ops)}: a stored label equal to `{bound}` is "
+                  f"{'neither inside nor after the resized branch and keeps its old number' if ops == {'Lt', 'Gt'} else 'treated as both'}"
+                  f" (the first compartment of the following branch ends up in the wrong branch)", node=lst[-1])
+    if not found:
+        col.unk(R, fi, f"set_ncomp: rewrite of `{reg}`", "no before/inside/after split of the stored labels found", node=fi.node)
 
 
 def _length(repo, col, fi, ex):
